@@ -105,6 +105,7 @@ enum {
     JV_PR_BI512_MUL, JV_PR_BI512_SQR,
     JV_PR_FP256_ADD, JV_PR_FP256_SUB, JV_PR_FP256_DBL, JV_PR_FP256_REDC, JV_PR_FP256_MUL, JV_PR_FP256_SQR,
     JV_PR_FP384_NEG, JV_PR_FP256_NEG,
+    JV_PR_BI384_SHL3,   /* x *= 8 by three doublings of one object through the public C++ member, shifted-out bits discarded: the call shape an optimiser may merge or drop if a binding claims more than the routine guarantees */
     JV_PR_COUNT
 };
 
